@@ -30,6 +30,20 @@ Contract K, for a preparer P, a non-empty NUL-free name s, non-empty component l
                         fails or returns a different value while the same statement with "w" quoted works.
                         ensures: unusable bare => SQLiteIdentifierPreparer._requires_quotes(w); and end to end the real
                         compiler's statements for a table, column and label named w execute and return the stored value.
+  (vii) case normalization, for every dialect D in the tree with requires_name_normalize (the Oracle drivers) and for the
+        DefaultDialect implementation with the default preparer (what third-party upper-folding dialects inherit); P = D's
+        preparer; reads(tok) = the stored name an upper-case-folding backend resolves the token to (spec: delimited ->
+        verbatim, regular identifier -> ASCII upper case, anything else illegal).  For a stored name S, n = D.normalize_name(S):
+        (a) inverse      D.denormalize_name(n) == S
+        (b) emission     reads(P.quote(n)) == S - the name handed out by reflection designates the same object again
+        (c) agreement    n is S folded to lower case  <=>  S is all upper case and P.quote(S.lower()) is bare; otherwise
+                         str(n) == S (normalize_name / _requires_quotes / quote agree on reserved words, illegal initial
+                         characters, illegal characters, mixed case and names without case)
+        For a user-side name u as str / quoted_name(u, None | True | False):
+        (d) denormalize  reads(P.quote(u)) == D.denormalize_name(u) - what DDL creates is what reflection queries look for
+        (e) statements   Table(normalize_name(St), Column(normalize_name(Sc))): the real SELECT / INSERT / UPDATE / DELETE /
+                         CREATE TABLE / CREATE INDEX / DROP TABLE texts have exactly the expected token shape and every
+                         identifier slot reads back as St / Sc
 
 Scope Bd (exhaustive): alphabet { " ` [ ] . % space a A u-umlaut ' newline } (12 characters)
   names      all strings of length 1..4 (quick, 22 620) / 1..5 (thorough, 271 452), per preparer: (i-a) (i-b) (iii)
@@ -37,20 +51,28 @@ Scope Bd (exhaustive): alphabet { " ` [ ] . % space a A u-umlaut ' newline } (12
              components; per preparer: (ii) in both forms and (v) with (schema, name) = the pair
   sqlite     (vi) all names of length 1..3 (quick) / 1..4 (thorough); reflection through a real Engine for length 1..2 / 1..3
   words      (iv) every word of W (about 480), lower-case
+  normalize  (vii) alphabet { a A Z _ $ 1 # space u-umlaut U-umlaut sharp-s CJK " . } (14 characters): all names of length 1..3
+             (quick, 2 954) / 1..4 (thorough, 41 370) + a catalogue (every ASCII reserved word of every preparer in UPPER /
+             lower / Capitalized form; 8 words decorated by 9 shapes (prefix digit, _, $, suffix #, space, dot ...) in 3 case
+             forms; 21 names with irregular case mappings) x 3 dialects: (a)-(c) as stored name, (d) in 4 user forms;
+             (e) every catalogue name as table and as column
 """
 import json
 import re
 import sqlite3
 
-from sqlalchemy import Column, Index, Integer, MetaData, Table, create_engine, func, insert, inspect, select, update
+from sqlalchemy import Column, Index, Integer, MetaData, Table, create_engine, delete, func, insert, inspect, select, update
 from sqlalchemy.dialects import mssql, mysql, oracle, postgresql, sqlite
 from sqlalchemy.dialects.mssql import pymssql
 from sqlalchemy.dialects.mysql import mysqlconnector
 from sqlalchemy.dialects.mysql import reserved_words as mysql_words
 from sqlalchemy.dialects.mysql.base import MySQLIdentifierPreparer
+from sqlalchemy.dialects.oracle import cx_oracle, oracledb
 from sqlalchemy.dialects.postgresql import asyncpg, psycopg2
 from sqlalchemy.engine import default
 from sqlalchemy.pool import StaticPool
+from sqlalchemy.schema import CreateIndex, CreateTable, DropTable
+from sqlalchemy.sql.elements import quoted_name
 
 from rtc import strspec as S
 
@@ -288,6 +310,195 @@ def word_clauses(P, w, engine):
     return out, unusable_bare
 
 
+# ------------------------------------------------------------------------------------------------ (vii) case normalization
+
+class _UpperFoldingDialect(default.DefaultDialect):
+    """what a third-party dialect for an upper-case-folding backend (Firebird, DB2, ...) is: the DefaultDialect
+    normalize_name / denormalize_name with the default preparer, requires_name_normalize switched on"""
+    name = "generic-upper-folding"
+    requires_name_normalize = True
+
+
+# every dialect class shipped in the tree is looked at; those that declare requires_name_normalize are under contract
+_CANDIDATES = {
+    "default": default.DefaultDialect, "sqlite+pysqlite": sqlite.dialect, "postgresql+psycopg": postgresql.dialect,
+    "postgresql+psycopg2": psycopg2.dialect, "postgresql+asyncpg": asyncpg.dialect, "mysql+mysqldb": mysql.dialect,
+    "mysql+mysqlconnector": mysqlconnector.dialect, "mssql+pyodbc": mssql.dialect, "mssql+pymssql": pymssql.dialect,
+    "oracle+oracledb": oracledb.dialect, "oracle+cx_oracle": cx_oracle.dialect, "generic-upper-folding": _UpperFoldingDialect,
+}
+_NORM_CACHE = {}
+
+
+def normalizing_dialects():
+    if not _NORM_CACHE:
+        for label, f in _CANDIDATES.items():
+            d = f()
+            if d.requires_name_normalize:
+                _NORM_CACHE[label] = d
+    return _NORM_CACHE
+
+
+NORM_ALPHABET = "aA_$1# üÜß姓\".Z"
+# names with remarkable case mappings: sharp s, dotted / dotless i, titlecase digraph, ligature, Greek final sigma, Cherokee
+NORM_UNICODE = ["ß", "SS", "İ", "ı", "I", "ǅ", "Ǆ", "ﬁ", "Σ", "ς", "σ", "Ꭰ", "ſ", "\u212a", "ÉMILE",
+                "Émile", "姓名", "姓A", "姓a", "2024", "___", "$$", "#"]
+NORM_SHAPES = ["%s", "%s_X", "X_%s", "1%s", "_%s", "$%s", "%s#", "%s 1", "%s.%s"]
+
+
+def norm_catalogue():
+    """names as a data dictionary may hold them: every reserved word of every preparer in three case forms, the same decorated
+    with illegal initial characters / other characters, and names whose case mapping is not one-to-one"""
+    words = set()
+    for label, (factory, _) in PREPARERS.items():
+        words |= {w.lower() for w in factory().reserved_words}
+    words = sorted(w for w in words if w.isascii())
+    out = []
+    for w in words:
+        out += [w.upper(), w, w.capitalize()]
+    for w in ("comment", "date", "order", "size", "quarter", "hidden", "amount", "x"):
+        for shape in NORM_SHAPES:
+            n = shape.replace("%s", w)
+            out += [n.upper(), n, n.capitalize()]
+    out += NORM_UNICODE
+    seen = set()
+    return [n for n in out if not (n in seen or seen.add(n))]
+
+
+_ORACLE_BARE = re.compile(r"[A-Za-z][A-Za-z0-9_$#]*", re.ASCII)   # Oracle SQL Language Reference, Database Object Naming Rules
+_GENERIC_BARE = re.compile(r"[A-Za-z_][A-Za-z0-9_$]*", re.ASCII)   # SQL regular identifier (+ leading underscore, $)
+
+
+def backend_reads(label, P, token):
+    """the stored name an upper-case-folding backend resolves an identifier token to: a delimited identifier verbatim, a
+    regular identifier folded to upper case; None when the token is neither (spec; reserved words: see assumptions)"""
+    if token.startswith(P.initial_quote):
+        return S.decode_quoted_identifier(token, P.initial_quote, P.final_quote)
+    bare = _ORACLE_BARE if label.startswith("oracle") else _GENERIC_BARE
+    return token.upper() if bare.fullmatch(token) else None
+
+
+QUOTE_FLAGS = {"str": None, "quoted_name(None)": None, "quoted_name(True)": True, "quoted_name(False)": False}
+
+
+def _user_name(u, form):
+    return u if form == "str" else quoted_name(u, QUOTE_FLAGS[form])
+
+
+def _nrepr(n):
+    return dict(text=str(n), quote=getattr(n, "quote", "plain str"))
+
+
+def normalize_clauses(label, S_name):
+    """(vii-a..c) for one stored name; returns (failures, folded?)"""
+    D = normalizing_dialects()[label]
+    P = D.identifier_preparer
+    out = []
+    fn = type(D).__name__ + ".normalize_name"
+    inp = dict(stored=S_name)
+    n = D.normalize_name(S_name)
+    back = D.denormalize_name(n)
+    if back != S_name or type(back) not in (str, quoted_name):
+        out.append(_fail("normalize-inverse", fn, label, inp, S_name, str(back), normalized=_nrepr(n)))
+    emitted = P.quote(n)
+    got = backend_reads(label, P, emitted)
+    if got != S_name:
+        out.append(_fail("normalize-emitted", fn, label, inp, S_name, got, normalized=_nrepr(n), emitted=emitted))
+    folded = str(n) != S_name
+    lower = S_name.lower()
+    may_fold = S_name.upper() == S_name and lower != S_name and P.quote(lower) == lower  # all upper case and its lower form renders bare
+    if folded != may_fold or (folded and str(n) != lower):
+        out.append(_fail("normalize-quote-agreement", fn, label, inp,
+                         "folded to lower case iff all upper case and quote(lower) is bare: %s" % may_fold, _nrepr(n),
+                         quote_of_lower=P.quote(lower), requires_quotes_of_lower=P._requires_quotes(lower)))
+    return out, folded
+
+
+def denormalize_clauses(label, u, form):
+    """(vii-d) for one user-side name; returns (failures, folded?)"""
+    D = normalizing_dialects()[label]
+    P = D.identifier_preparer
+    name = _user_name(u, form)
+    emitted = P.quote(name)
+    stored = backend_reads(label, P, emitted)
+    inp = dict(user=u, form=form)
+    fn = type(D).__name__ + ".denormalize_name"
+    if stored is None:
+        if QUOTE_FLAGS[form] is False:
+            return [], False  # the user forbade quoting a name that needs it: precondition of quote=False not met
+        return [_fail("denormalize-emitted", fn, label, inp, "a delimited or a legal regular identifier", emitted)], False
+    d = D.denormalize_name(name)
+    if d != stored:
+        return [_fail("denormalize-agreement", fn, label, inp, stored, str(d), emitted=emitted)], False
+    return [], stored != u
+
+
+def _ident_tokens(P, sql):
+    """identifier tokens of a statement text (delimited identifiers by the preparer's quote characters; words)"""
+    out = []
+    i = 0
+    n = len(sql)
+    iq, fq = P.initial_quote, P.final_quote
+    while i < n:
+        c = sql[i]
+        if sql.startswith(iq, i):
+            j = i + len(iq)
+            while j < n:
+                if sql.startswith(fq, j):
+                    if sql.startswith(fq, j + len(fq)):
+                        j += 2 * len(fq)
+                        continue
+                    break
+                j += 1
+            out.append(sql[i:j + len(fq)])
+            i = j + len(fq)
+        elif c.isspace() or c in ".,()=+?:":
+            i += 1
+        else:
+            j = i
+            while j < n and not (sql[j].isspace() or sql[j] in ".,()=+?:" or sql.startswith(iq, j)):
+                j += 1
+            out.append(sql[i:j])
+            i = j
+    return out
+
+
+_T, _C, _I = "table", "column", "index"
+# statement -> the token sequence of its text with literal_binds; _T / _C / _I mark the identifier slots
+_TEMPLATES = {
+    "select": ["SELECT", _T, _C, "FROM", _T, "WHERE", _T, _C, "1"],
+    "insert": ["INSERT", "INTO", _T, _C, "VALUES", "1"],
+    "update": ["UPDATE", _T, "SET", _C, "2", "WHERE", _T, _C, "1"],
+    "delete": ["DELETE", "FROM", _T, "WHERE", _T, _C, "1"],
+    "create-table": ["CREATE", "TABLE", _T, _C, "INTEGER"],
+    "create-index": ["CREATE", "INDEX", _I, "ON", _T, _C],
+    "drop-table": ["DROP", "TABLE", _T],
+}
+
+
+def statement_clauses(label, tname, cname):
+    """(vii-e) a 'reflected' table: names come from normalize_name; every real statement must designate the stored names"""
+    D = normalizing_dialects()[label]
+    P = D.identifier_preparer
+    t = Table(D.normalize_name(tname), MetaData(), Column(D.normalize_name(cname), Integer))
+    col = t.c[0]
+    ix = Index(D.normalize_name("IX1"), col)
+    stored = {_T: tname, _C: cname, _I: "IX1"}
+    out = []
+    for form, stmt in (("select", select(col).where(col == 1)), ("insert", insert(t).values({col: 1})),
+                       ("update", update(t).values({col: 2}).where(col == 1)), ("delete", delete(t).where(col == 1)),
+                       ("create-table", CreateTable(t)), ("create-index", CreateIndex(ix)), ("drop-table", DropTable(t))):
+        sql = str(stmt.compile(dialect=D, compile_kwargs={"literal_binds": True}))
+        toks = _ident_tokens(P, sql)
+        tpl = _TEMPLATES[form]
+        want = [stored.get(x, x) for x in tpl]
+        got = ([backend_reads(label, P, tok) if slot in stored else tok for slot, tok in zip(tpl, toks)]
+               if len(toks) == len(tpl) else toks)
+        if got != want:
+            out.append(_fail("normalize-statement", type(D).__name__ + ".normalize_name + %s compiler" % form, label,
+                             dict(table=tname, column=cname, statement=form), want, got, sql=sql))
+    return out
+
+
 # ------------------------------------------------------------------------------------------------ workers
 
 def _work(task):
@@ -347,6 +558,28 @@ def _work(task):
                 unusable.append(w)
             fails.extend(f)
         res["unusable_bare"] = unusable
+    elif kind == "normalize":
+        _, label, names, stmt_names = task
+        for n in names:
+            f, folded = normalize_clauses(label, n)
+            res["evals"] += 1
+            res["nontrivial"] += folded
+            fails.extend(f)
+            for form in QUOTE_FLAGS:
+                f, folded = denormalize_clauses(label, n, form)
+                res["evals"] += 1
+                res["nontrivial"] += folded
+                fails.extend(f)
+        D = normalizing_dialects()[label]
+        for n in stmt_names:
+            fails.extend(statement_clauses(label, n, "C1"))
+            fails.extend(statement_clauses(label, "T1", n))
+            res["evals"] += 2
+            res["nontrivial"] += 2 * (str(D.normalize_name(n)) != n)
+        for n in (stmt_names[len(stmt_names) // 3:] or names)[:1]:
+            nn = D.normalize_name(n)
+            res["samples"].append(dict(dialect=label, stored=n, normalize_name=_nrepr(nn), emitted=D.identifier_preparer.quote(nn),
+                                       denormalize_name=str(D.denormalize_name(nn))))
     if len(fails) > 400:
         res["dropped_failures"] = len(fails) - 400
         del fails[400:]
@@ -383,8 +616,14 @@ def run(run, tier, seed, args):
         tasks.append(("reflect", c))
     for c in S.chunks(words, nj):
         tasks.append(("words", c))
-    cost = {"names": 1, "dotted": 12 * len(seconds) * 4, "sqlite": 700, "reflect": 1200, "words": 900}
-    tasks.sort(key=lambda t: -cost[t[0]] * len(t[2] if t[0] == "names" else t[1]))
+    norm_names = S.strings(NORM_ALPHABET, 3 if quick else 4, 1)
+    cat = norm_catalogue()
+    norm_names += [n for n in cat if n not in set(norm_names)]
+    for label in normalizing_dialects():
+        for c, sc in zip(S.chunks(norm_names, 2 if quick else nj), S.chunks(cat, 2 if quick else nj)):
+            tasks.append(("normalize", label, c, sc))
+    cost = {"names": 1, "dotted": 12 * len(seconds) * 4, "sqlite": 700, "reflect": 1200, "words": 900, "normalize": 12}
+    tasks.sort(key=lambda t: -cost[t[0]] * len(t[2] if t[0] in ("names", "normalize") else t[1]))
     res = S.pmap(_work, tasks)
     F = S.Findings(run)
     F.extend(sorted((f for r in res for f in r["fails"]),
@@ -405,10 +644,16 @@ def run(run, tier, seed, args):
         rule="one evaluation = one (preparer, name) / (preparer, component list) / sqlite name / word, each enumerated once "
              "(exhaustive products, distinct by construction), all its clauses evaluated. Non-trivial, measured per case on the "
              "real output: names / component lists for which _escape_identifier changed the text (the quote character or a "
-             "doubled %) or a component contains the separator '.'; words that sqlite3 refuses bare but accepts quoted.",
+             "doubled %) or a component contains the separator '.'; words that sqlite3 refuses bare but accepts quoted; "
+             "(vii): (dialect, stored name) / (dialect, user name, quote form) / (dialect, statement set, name) cases in which "
+             "case folding actually happened (normalize_name returned a different string / the backend stores a different "
+             "string than the user wrote).",
         by_part=by,
         names_rendered_bare=sum(r["bare"] for r in res),
         preparers=list(PREPARERS),
+        normalizing_dialects=list(normalizing_dialects()),
+        dialects_inspected_for_requires_name_normalize=list(_CANDIDATES),
+        normalize_names=len(norm_names), normalize_catalogue=len(cat),
         word_catalogue_size=len(words),
         words_sqlite_refuses_bare=len(unusable),
         words_refused_bare_and_not_quoted_by_sqlalchemy=[w for w in unusable if not P._requires_quotes(w)],
@@ -417,8 +662,11 @@ def run(run, tier, seed, args):
         + [dict(word=w, sqlite_refuses_bare=True, requires_quotes=P._requires_quotes(w)) for w in unusable[:2] + unusable[-2:]],
         exhaustive=True,
         scope="alphabet %r; names of length 1..%d x %d preparers; dotted pairs (1..%d) x (1..2) and 1-character triples x %d "
-              "preparers; SQLite execution for names of length 1..%d, reflection 1..%d; %d catalogue words on sqlite3 %s"
-              % (ALPHABET, n_names, len(PREPARERS), n_first, len(PREPARERS), n_sqlite, n_reflect, len(words), sqlite3.sqlite_version),
+              "preparers; SQLite execution for names of length 1..%d, reflection 1..%d; %d catalogue words on sqlite3 %s; "
+              "case normalization: dialects %s x (all names of length 1..%d over %r + %d catalogue names) as stored name and as "
+              "user name in the forms %s; 7 statements x catalogue names as table / column"
+              % (ALPHABET, n_names, len(PREPARERS), n_first, len(PREPARERS), n_sqlite, n_reflect, len(words), sqlite3.sqlite_version,
+                 list(normalizing_dialects()), 3 if quick else 4, NORM_ALPHABET, len(cat), list(QUOTE_FLAGS)),
         sqlalchemy_tree=sqlalchemy.__file__,
     )
     run.assumptions += [
@@ -428,7 +676,11 @@ def run(run, tier, seed, args):
         "oracledb, pysqlite: no) is taken from the drivers' documentation; no driver is run",
         "clause (iv) instantiates the backend's keyword contract by probing this sqlite3 library version only; PostgreSQL / "
         "MySQL / MSSQL / Oracle keyword sets are outside (no server)",
-        "empty names, NUL, names longer than the scope, length limits and case folding on reflection (normalize_name) are outside",
+        "empty names, NUL, names longer than the scope and length limits are outside",
+        "(vii) the upper-case-folding backend is a spec: a delimited identifier designates its text verbatim, a regular identifier "
+        "(Oracle: [A-Za-z][A-Za-z0-9_$#]*, generic: [A-Za-z_][A-Za-z0-9_$]*) designates its ASCII upper-case form; no Oracle server "
+        "is run, the Inspector's dictionary queries and the result-set key normalization in engine/cursor.py are outside; whether "
+        "the preparer's reserved_words cover the backend's keywords is outside (as for clause iv)",
         "MSSQL schema names containing '.', '[' or ']' are multipart (database.owner) by documentation and excluded from (v)",
     ]
 
@@ -438,7 +690,13 @@ def replay(data):
     clause = data.get("clause", "")
     label = inp.get("preparer", "sqlite+pysqlite")
     fails = []
-    if "word" in inp:
+    if "stored" in inp:
+        fails, _ = normalize_clauses(label, inp["stored"])
+    elif "user" in inp:
+        fails, _ = denormalize_clauses(label, inp["user"], inp["form"])
+    elif "statement" in inp:
+        fails = [f for f in statement_clauses(label, inp["table"], inp["column"]) if f["input"]["statement"] == inp["statement"]]
+    elif "word" in inp:
         fails, _ = word_clauses(sqlite.dialect().identifier_preparer, inp["word"], _engine())
     elif "components" in inp:
         fails = dotted_clauses(PREPARERS[label][0](), label, PREPARERS[label][1], tuple(inp["components"]))
